@@ -26,15 +26,6 @@ def SimArgs (fns : List FnDef) (P : Prog) (n : Nat) : Prop :=
       ∃ σ1, ExecC P σ code t (.normal σ1) ∧ tmps.map σ1 = vs ∧ Agree env' σ1 ∧ Frame c σ σ1) ∧
     (∀ t v, evalArgs fns n env es = ⟨t, .ret v⟩ → ExecC P σ code t (.returned v))
 
-/-- the fields of a record literal: `to` (a temporary below the counter) holds the
-    fields stored so far -/
-def SimFields (fns : List FnDef) (P : Prog) (n : Nat) : Prop :=
-  ∀ (es : Exprs) (env : Env) (k i c : Nat) (code : Code) (c' : Nat) (σ : Store) (pre : List Int),
-    lowerFields es (.t k) i c = some (code, c') → Agree env σ → k < c → σ (.t k) = .recd pre → pre.length = i →
-    (∀ t env' fs, evalInts fns n env es = ⟨t, .ok (env', fs)⟩ →
-      ∃ σ1, ExecC P σ code t (.normal σ1) ∧ σ1 (.t k) = .recd (pre ++ fs) ∧ Agree env' σ1 ∧ Frame k σ σ1) ∧
-    (∀ t v, evalInts fns n env es = ⟨t, .ret v⟩ → ExecC P σ code t (.returned v))
-
 /-- the elements of a list literal: `lst` (a temporary below the counter) holds the list so far -/
 def SimElems (fns : List FnDef) (P : Prog) (n : Nat) : Prop :=
   ∀ (es : Exprs) (env : Env) (k u c : Nat) (code : Code) (c' : Nat) (σ : Store) (pre : List Int),
@@ -153,7 +144,7 @@ theorem SimE.ret {fns P n} (hE : SimE fns P n) {e env c code value c1 σ t v}
 
 theorem R.ok_eq {α} (a : α) : (R.ok a : R α) = ⟨[], .ok a⟩ := rfl
 
-theorem simE_step {fns P n} (hE : SimE fns P n) (hA : SimArgs fns P n) (hF : SimFields fns P n) (hB : SimBlock fns P n)
+theorem simE_step {fns P n} (hE : SimE fns P n) (hA : SimArgs fns P n) (hB : SimBlock fns P n)
     (hW : SimWhile fns P n) (hC : SimChain fns P n) (hK : SimCtor fns P n) (hS : SimParts fns P n) (hL : SimElems fns P n) (hR : SimFor fns P n)
     (hP : ProgOk fns P) :
     SimE fns P (n + 1) := by
@@ -1075,25 +1066,35 @@ theorem simE_step {fns P n} (hE : SimE fns P n) (hA : SimArgs fns P n) (hF : Sim
       · simp [pure_eq, R.ok] at h2'
   | record fs =>
     simp [lowerE, Option.bind_eq_some_iff] at hl
-    obtain ⟨cf, c1, h1, rfl, rfl, rfl⟩ := hl
-    have m1 := lowerFields_mono fs _ _ _ cf c1 h1
-    have hσ0 : (σ.set (.t c) (.recd [])) (.t c) = .recd [] := by simp
-    have h0 : ExecS P σ (.setDisc (.t c) (.recd [])) [] (.normal (σ.set (.t c) (.recd []))) := .setDisc
-    have hF' := hF fs env c 0 (c + 1) cf c1 (σ.set (.t c) (.recd [])) [] h1 (ha.set_tmp _ _) (by omega) hσ0 rfl
+    obtain ⟨ca, xs, c1, h1, rfl, rfl, rfl⟩ := hl
+    have ⟨m1, hxs⟩ := lowerCtorArgs_mono fs c ca xs c1 h1
+    have hne : ∀ x ∈ xs, x ≠ Var.t c1 := by
+      intro x hx; obtain ⟨j, rfl, hj⟩ := hxs x hx; intro h; cases h; omega
     constructor
     · intro t env' w h
       simp only [evalExpr, bind_eq, bind_ok_iff] at h
       obtain ⟨t1, ⟨env1, fs'⟩, t2, hargs, h2', rfl⟩ := h
       simp [pure_eq, R.ok] at h2'
       obtain ⟨rfl, rfl, rfl⟩ := h2'
-      obtain ⟨σ1, hx1, hv1, ha1, hf1⟩ := hF'.1 t1 env1 fs' hargs
-      refine ⟨σ1, t1, [], ?_, (EvalV.pure (by simp [evalValue, hv1])), by simp, ha1,
-        (Frame.set_tmp σ _ (Nat.le_refl c)).trans hf1 (Nat.le_refl _)⟩
-      simpa using ExecC.cons h0 hx1
+      obtain ⟨σ1, hx1, hmap, ha1, hf1⟩ := (hK fs env c ca xs c1 σ h1 ha).1 t1 env1 fs' hargs
+      have s1 : ExecS P σ1 (.setDisc (.t c1) (.recd [])) [] (.normal (σ1.set (.t c1) (.recd []))) := .setDisc
+      have hmap' : xs.map (σ1.set (.t c1) (.recd [])) = fs'.map Val.int := by
+        rw [← hmap]; exact List.map_congr_left (fun y hy => set_other _ _ (hne y hy))
+      obtain ⟨σ2, hx2, hv2, hk2⟩ := exec_storeFieldsR (to := .t c1) xs fs' [] _ (by simp) hne hmap'
+      refine ⟨σ2, t1, [], ?_, (EvalV.pure (by simp [evalValue, hv2])), by simp, ?_, ?_⟩
+      · have := ExecC.append hx1 (ExecC.cons s1 hx2)
+        simpa [List.append_assoc] using this
+      · intro x v hx
+        rw [hk2 (.x x) (by intro h; cases h), set_other _ _ (by intro h; cases h)]
+        exact ha1 x v hx
+      · intro j hj
+        rw [hk2 (.t j) (by intro h; cases h <;> omega), set_other _ _ (by intro h; cases h <;> omega)]
+        exact hf1 j hj
     · intro t w h
       simp only [evalExpr, bind_eq, bind_ret_iff] at h
       rcases h with h | ⟨t1, ⟨env1, fs'⟩, t2, hargs, h2', rfl⟩
-      · simpa using ExecC.cons h0 (hF'.2 t w h)
+      · have := (hK fs env c ca xs c1 σ h1 ha).2 t w h
+        simpa [List.append_assoc] using ExecC.append_ret _ this
       · simp [pure_eq, R.ok] at h2'
   | field e1 i =>
     by_cases hvar : ∃ x, e1 = .var x
@@ -1278,64 +1279,6 @@ theorem simArgs_step {fns P n} (hE : SimE fns P n) (hA : SimArgs fns P n) : SimA
         · have := (hA es env1 (c1 + 1) cs ts c2 _ h2 (ha1.set_tmp c1 v)).2 t2 w h
           simpa [List.append_assoc] using ExecC.append hx1 this
         · simp [pure_eq, R.ok] at h4
-
-theorem simFields_step {fns P n} (hE : SimE fns P n) (hF : SimFields fns P n) : SimFields fns P (n + 1) := by
-  intro es env k i c code c' σ pre hl ha hk hσ hlen
-  cases es with
-  | nil =>
-    simp [lowerFields] at hl; obtain ⟨rfl, rfl⟩ := hl
-    constructor
-    · intro t env' fs h
-      simp [evalInts, R.ok] at h
-      obtain ⟨rfl, rfl, rfl⟩ := h
-      exact ⟨σ, .nil, by simpa using hσ, ha, Frame.refl _ _⟩
-    · intro t v h; simp [evalInts, R.ok] at h
-  | cons e es =>
-    simp [lowerFields, Option.bind_eq_some_iff] at hl
-    obtain ⟨ce, ve, c1, h1, cs, h2, rfl⟩ := hl
-    have ⟨m1, _⟩ := lowerE_mono e c ce ve c1 h1
-    -- what happens once the field's value (an i32) is known
-    have field : ∀ t1 env1 nv, evalExpr fns n env e = ⟨t1, .ok (env1, .int nv)⟩ →
-        ∃ σ1, ExecC P σ (ce ++ [.assignField (.t k) i ve]) t1 (.normal (σ1.set (.t k) (.recd (pre ++ [nv]))))
-          ∧ Agree env1 σ1 ∧ Frame c σ σ1 := by
-      intro t1 env1 nv hel
-      obtain ⟨σ1, t1', t2', hx1, hv1, rfl, ha1, hf1⟩ := (hE e env c ce ve c1 σ h1 ha).1 t1 env1 (.int nv) hel
-      have hto : σ1 (.t k) = .recd pre := by rw [hf1 k hk, hσ]
-      have s1 : ExecS P σ1 (.assignField (.t k) i ve) t2' (.normal (σ1.set (.t k) (.recd (pre ++ [nv])))) :=
-        .assignField hv1 (by simp [hto, setPayload, hlen])
-      exact ⟨σ1, ExecC.append hx1 (ExecC.single s1), ha1, hf1⟩
-    constructor
-    · intro t env' fs h
-      simp only [evalInts, bind_eq, bind_ok_iff] at h
-      obtain ⟨t1, ⟨env1, v⟩, t2, hel, h2', rfl⟩ := h
-      cases v with
-      | int nv =>
-        simp only [bind_eq, bind_ok_iff] at h2'
-        obtain ⟨t3, ⟨env2, fs'⟩, t4, hes, h4, rfl⟩ := h2'
-        simp [pure_eq, R.ok] at h4
-        obtain ⟨rfl, rfl, rfl⟩ := h4
-        obtain ⟨σ1, hx1, ha1, hf1⟩ := field t1 env1 nv hel
-        obtain ⟨σ2, hx2, hv2, ha2, hf2⟩ := (hF es env1 k (i + 1) c1 cs c' (σ1.set (.t k) (.recd (pre ++ [nv]))) (pre ++ [nv]) h2
-          (ha1.set_tmp _ _) (by omega) (by simp) (by simp [hlen])).1 t3 env2 fs' hes
-        refine ⟨σ2, ?_, by simpa using hv2, ha2,
-          ((hf1.mono (by omega)).trans (Frame.set_tmp _ _ (Nat.le_refl _)) (Nat.le_refl _)).trans hf2 (Nat.le_refl _)⟩
-        simpa [List.append_assoc] using ExecC.append hx1 hx2
-      | _ => simp [R.stuck] at h2'
-    · intro t w h
-      simp only [evalInts, bind_eq, bind_ret_iff] at h
-      rcases h with h | ⟨t1, ⟨env1, v⟩, t2, hel, h2', rfl⟩
-      · have := hE.ret h1 ha h
-        simpa [List.append_assoc] using ExecC.append_ret _ this
-      · cases v with
-        | int nv =>
-          simp only [bind_eq, bind_ret_iff] at h2'
-          rcases h2' with h | ⟨t3, ⟨env2, fs'⟩, t4, hes, h4, rfl⟩
-          · obtain ⟨σ1, hx1, ha1, hf1⟩ := field t1 env1 nv hel
-            have := (hF es env1 k (i + 1) c1 cs c' (σ1.set (.t k) (.recd (pre ++ [nv]))) (pre ++ [nv]) h2
-              (ha1.set_tmp _ _) (by omega) (by simp) (by simp [hlen])).2 t2 w h
-            simpa [List.append_assoc] using ExecC.append hx1 this
-          · simp [pure_eq, R.ok] at h4
-        | _ => simp [R.stuck] at h2'
 
 theorem frame_of_tmps {c : Nat} {σ σ1 : Store} (h : ∀ k, σ1 (.t k) = σ (.t k)) : Frame c σ σ1 := fun k _ => h k
 
@@ -1966,10 +1909,10 @@ theorem simWhile_step {fns P n} (hE : SimE fns P n) (hB : SimBlock fns P n) (hW 
       | _ => simp [R.stuck] at h2'
 
 theorem sim_all (fns : List FnDef) (P : Prog) (hP : ProgOk fns P) :
-    ∀ n, SimE fns P n ∧ SimArgs fns P n ∧ SimSeq fns P n ∧ SimBlock fns P n ∧ SimWhile fns P n ∧ SimFields fns P n ∧ SimChain fns P n
+    ∀ n, SimE fns P n ∧ SimArgs fns P n ∧ SimSeq fns P n ∧ SimBlock fns P n ∧ SimWhile fns P n ∧ SimChain fns P n
       ∧ SimCtor fns P n ∧ SimParts fns P n ∧ SimElems fns P n ∧ SimFor fns P n
   | 0 => by
-    refine ⟨?_, ?_, ?_, ?_, ?_, ?_, ?_, ?_, ?_, ?_, ?_⟩
+    refine ⟨?_, ?_, ?_, ?_, ?_, ?_, ?_, ?_, ?_, ?_⟩
     · intro e env c code value c' σ _ _
       exact ⟨fun t env' v h => by simp [evalExpr, R.fuel] at h, fun t v h => by simp [evalExpr, R.fuel] at h⟩
     · intro es env c code tmps c' σ _ _
@@ -1980,8 +1923,6 @@ theorem sim_all (fns : List FnDef) (P : Prog) (hP : ProgOk fns P) :
       exact ⟨fun t env' v h => by simp [evalBlock, R.fuel] at h, fun t v h => by simp [evalBlock, R.fuel] at h⟩
     · intro cnd b env c cc vc c1 cb xb c2 σ _ _ _
       exact ⟨fun t env' v h => by simp [evalWhile, R.fuel] at h, fun t v h => by simp [evalWhile, R.fuel] at h⟩
-    · intro es env k i c code c' σ pre _ _ _ _ _
-      exact ⟨fun t env' v h => by simp [evalInts, R.fuel] at h, fun t v h => by simp [evalInts, R.fuel] at h⟩
     · intro arms env sel ke tb idx c steps c' σ v ko cA codes cA' c0 _ _ _ _ _ _ _ _ _ _ _
       exact ⟨fun t env' r h => by simp [evalArms, R.fuel] at h, fun t w h => by simp [evalArms, R.fuel] at h⟩
     · intro es env c code xs c' σ _ _
@@ -1993,9 +1934,9 @@ theorem sim_all (fns : List FnDef) (P : Prog) (hP : ProgOk fns P) :
     · intro x b env all xs j kl c2 copt cb xb c3 σ _ _ _ _ _ _ _
       exact ⟨fun t env' v h => by simp [evalFor, R.fuel] at h, fun t v h => by simp [evalFor, R.fuel] at h⟩
   | n + 1 => by
-    obtain ⟨hE, hA, hS, hB, hW, hF, hC, hK, hT, hL, hR⟩ := sim_all fns P hP n
-    exact ⟨simE_step hE hA hF hB hW hC hK hT hL hR hP, simArgs_step hE hA, simSeq_step hE hS, simBlock_step hS, simWhile_step hE hB hW,
-      simFields_step hE hF, simChain_step hE hB hC, simCtor_step hE hK, simParts_step hE hT, simElems_step hE hL, simFor_step hB hR⟩
+    obtain ⟨hE, hA, hS, hB, hW, hC, hK, hT, hL, hR⟩ := sim_all fns P hP n
+    exact ⟨simE_step hE hA hB hW hC hK hT hL hR hP, simArgs_step hE hA, simSeq_step hE hS, simBlock_step hS, simWhile_step hE hB hW,
+      simChain_step hE hB hC, simCtor_step hE hK, simParts_step hE hT, simElems_step hE hL, simFor_step hB hR⟩
 
 
 /-! ### the structured MIR is deterministic -/
